@@ -16,12 +16,14 @@ package layer4
 
 import (
 	"bytes"
+	"crypto/tls"
 	"errors"
 	"fmt"
 	"io"
 	"net"
 	"os"
 	"strings"
+	"sync"
 	"testing"
 	"time"
 
@@ -209,6 +211,9 @@ type v2Level struct {
 }
 
 type v2Runner struct {
+	listener bool     // run in listener-wrapper form: the fallback is the hand-off to the wrapped listener
+	tlsVar   bool     // wrapping handlers also record a TLS connection state, as the tls handler does
+	handed   net.Conn // what the wrapped listener's Accept side received
 	tr      []v2Evt
 	conn    *v2Conn
 	invs    int
@@ -424,6 +429,11 @@ func (r *v2Runner) buildRoutes(rs []v2R, lvl *v2Level) RouteList {
 			case 3:
 				nh = NextHandlerFunc(func(cx *Connection, next Handler) error {
 					// as after tls.Server(cx) / proxyprotocol.NewConn(cx): the new Connection reads through the old one
+					if r.tlsVar {
+						// what l4tls leaves behind after terminating TLS (the listener wrapper looks at it at the hand-off)
+						states, _ := cx.GetVar("tls_connection_states").([]*tls.ConnectionState)
+						cx.SetVar("tls_connection_states", append(states, &tls.ConnectionState{}))
+					}
 					return next.Handle(cx.Wrap(cx))
 				})
 			default:
@@ -481,6 +491,91 @@ func v2Run(rs []v2R, script []v2Item) *v2Runner {
 		s.handle(r.conn)
 	}()
 	return r
+}
+
+// runs the configuration in listener-wrapper form: the real listener.handle with the real listenerHandler as
+// fallback; the trace's fallback event is what arrives on the wrapped listener's side
+func v2RunListener(rs []v2R, script []v2Item, tlsVar bool) *v2Runner {
+	r := &v2Runner{listener: true, tlsVar: tlsVar}
+	r.conn = &v2Conn{r: r, script: v2CloneScript(script)}
+	top := &v2Level{depth: 0, inv: 0, rs: rs}
+	routes := r.buildRoutes(rs, top)
+	logger := zap.New(&v2Core{r: r, lvl: top})
+	l := &listener{logger: logger, connChan: make(chan net.Conn, 4), done: make(chan struct{}), wg: &sync.WaitGroup{}}
+	l.compiledRoute = routes.Compile(logger, time.Hour, listenerHandler{})
+	func() {
+		defer func() {
+			if e := recover(); e != nil {
+				r.panicked = true
+			}
+		}()
+		l.wg.Add(1)
+		l.handle(r.conn)
+	}()
+	select {
+	case c := <-l.connChan:
+		r.handed = c
+		var b []byte
+		known := false
+		switch x := c.(type) {
+		case *Connection:
+			b, known = v2Avail(x), true
+			r.note(x)
+		case *tlsConnection:
+			if cx, ok := x.Conn.(*Connection); ok {
+				b, known = v2Avail(cx), true
+				r.note(cx)
+			}
+		}
+		why := ""
+		if !known {
+			why = "not-a-layer4-connection"
+		}
+		r.tr = append(r.tr, v2Evt{kind: "fb", inv: 0, depth: 0, avail: len(b), data: b, armed: r.conn.armed, rs: rs, why: why})
+	default:
+	}
+	if len(l.connChan) > 0 {
+		r.tr = append(r.tr, v2Evt{kind: "fb", inv: 0, depth: 0, rs: rs, why: "second-hand-off"})
+	}
+	return r
+}
+
+// listener-wrapper form: what the wrapped listener can read from the connection it was handed is exactly the
+// client's stream minus what the handlers consumed (scripts of chunks only)
+func v2ListenerOracle(rs []v2R, script []v2Item, r *v2Runner, fails v2Fails) {
+	var stream []byte
+	for _, it := range script {
+		if it.kind == 0 {
+			stream = append(stream, it.data...)
+		}
+	}
+	consumed := 0
+	for _, e := range r.tr {
+		if e.kind == "rd" {
+			consumed += len(e.data)
+		}
+	}
+	if r.handed == nil {
+		if !r.panicked && r.conn.closed != 1 {
+			fails.add("C02:listener:close-count", fmt.Sprintf("connection not handed over and closed %d times", r.conn.closed))
+		}
+		return
+	}
+	if r.conn.closed != 0 {
+		fails.add("C02:listener:handed-over-connection-closed", "the connection was closed by the listener wrapper although it was handed to the wrapped listener")
+	}
+	got, _ := io.ReadAll(r.handed)
+	want := v2Slice(stream, consumed, len(stream))
+	if !bytes.Equal(got, want) {
+		fails.add("C02:listener:handoff-stream-not-intact", fmt.Sprintf("the wrapped listener reads %d bytes %q from the connection it was handed, the client's unconsumed stream is %d bytes %q (TLS state recorded by a wrapping handler: %v)", len(got), v2Short(got), len(want), v2Short(want), r.tlsVar))
+	}
+}
+
+func v2Short(b []byte) string {
+	if len(b) > 24 {
+		return string(b[:24]) + "..."
+	}
+	return string(b)
 }
 
 func (r *v2Runner) coqTrace() string {
@@ -654,7 +749,7 @@ func v2Oracle(rs []v2R, script []v2Item, r *v2Runner) v2Fails {
 	if ended != "herr" && r.retErr {
 		fails.add("C02:router:error-without-handler-error", "the compiled handler returned an error although no handler failed")
 	}
-	if !r.panicked && r.conn.closed != 1 {
+	if !r.listener && !r.panicked && r.conn.closed != 1 {
 		fails.add("C05:router:close-count", fmt.Sprintf("connection closed %d times by Server.handle", r.conn.closed))
 	}
 	if r.maxBuf > MaxMatchingBytes-1+prefetchChunkSize {
@@ -878,6 +973,10 @@ func v2Corpus() (out []struct {
 		{{mss: one(v2T(3, v2Yes)), hs: []v2H{{kind: 3}, {kind: 1, k: 1}}}, {mss: firstIs('b'), hs: []v2H{{kind: 1, k: 2}}}, {mss: firstIs('d'), hs: term}},
 		// subroute: its fallback is the rest of the outer chain; outer matching then goes on
 		{{mss: nil, hs: []v2H{{kind: 4, sub: []v2R{{mss: one(v2T(2, v2No)), hs: term}}}, {kind: 1, k: 1}}}, {mss: firstIs('b'), hs: term}},
+		// a wrapping non-terminal handler (TLS termination), then a data-reading matcher that decides no-match: the
+		// fallback (in listener-wrapper form: the wrapped listener) gets the connection with the bytes prefetched since
+		{{mss: one(v2T(1, v2Yes)), hs: []v2H{{kind: 3}}}, {mss: one(v2T(3, v2No)), hs: term}},
+		{{mss: one(v2T(2, v2Yes)), hs: []v2H{{kind: 3}, {kind: 1, k: 1}}}, {mss: firstIs('x'), hs: term}, {mss: one(v2T(4, v2No)), hs: term}},
 		// a matcher set that never decides with a second set that does
 		{{mss: [][]v2M{{v2T(7, v2Yes)}, {v2T(2, v2Yes)}}, hs: []v2H{{kind: 1, k: 2}}}, {mss: [][]v2M{{{kind: 2, sets: [][]v2M{{v2T(1, v2Yes)}}}}}, hs: term}},
 	}
@@ -913,9 +1012,38 @@ func TestVerifC02Router(t *testing.T) {
 	}
 	runs, emitted := 0, 0
 	failCount := map[string]int{}
+	listenerRuns := 0
+	chunksOnly := func(sc []v2Item) bool {
+		for _, it := range sc {
+			if it.kind != 0 {
+				return false
+			}
+		}
+		return true
+	}
+	// the same configuration in listener-wrapper form (fallback = hand-off to the wrapped listener)
+	doListener := func(c cfg) {
+		lr := v2RunListener(c.rs, c.sc, listenerRuns%2 == 0)
+		listenerRuns++
+		fails := v2Oracle(c.rs, c.sc, lr)
+		v2ListenerOracle(c.rs, c.sc, lr, fails)
+		input := map[string]any{"form": "listener wrapper", "routes": v2RoutesCoq(c.rs), "script": v2ScriptCoq(c.sc), "trace": lr.coqTrace(), "tls_state_recorded_by_wrapping_handlers": lr.tlsVar}
+		for k, d := range fails {
+			failCount[k]++
+			if failCount[k] <= 3 {
+				out.Fail(k, d, input)
+			}
+		}
+	}
 	do := func(c cfg, emit bool) {
 		r := v2Run(c.rs, c.sc)
 		runs++
+		if chunksOnly(c.sc) && (c.cls == "corpus" || c.cls == "exh0" || c.cls == "exh1" || c.cls == "random" || runs%5 == 0) {
+			doListener(c)
+			if c.cls == "corpus" {
+				doListener(c) // both with and without a recorded TLS state
+			}
+		}
 		fails := v2Oracle(c.rs, c.sc, r)
 		input := map[string]any{"routes": v2RoutesCoq(c.rs), "script": v2ScriptCoq(c.sc), "trace": r.coqTrace()}
 		for k, d := range fails {
@@ -1011,6 +1139,7 @@ func TestVerifC02Router(t *testing.T) {
 	}
 
 	out.Stat("configurations_run_through_oracle", runs)
+	out.Stat("configurations_also_run_in_listener_wrapper_form", listenerRuns)
 	out.Stat("cases_emitted", emitted)
 	out.Stat("exhaustive_three_route_space", total3*len(scs))
 	_ = prop
